@@ -29,6 +29,10 @@ def run(ctx):
         g, s = vlib.gen_and_replay(ctx, "ClientGen", "ClientGen_%s_%s.cfg" % (inst, ctx.tier), binp, timeout=2400, harness_timeout=2400)
         gen_total += g.generated
         ctx.notes.append("instance %s: %d states model-checked, %d transitions replayed (TLC %.0fs)" % (inst, r.distinct, s["behaviours"], g.wall))
+    # every behaviour (not only every transition) of a small pipeline alphabet up to a depth: what a faulty client does
+    # may depend on the order of past events (completion before or after the data arrived), not only on the state
+    g, s = vlib.gen_and_replay(ctx, "ClientGen", "ClientGen_pipe_%s.cfg" % ctx.tier, binp, timeout=2400, harness_timeout=2400)
+    ctx.notes.append("instance pipe (all behaviours to a depth): %d maximal behaviours replayed (TLC %.0fs)" % (s["behaviours"], g.wall))
     if not quick:
         # long random behaviours of larger instances (simulation mode), replayed the same way
         for inst in INSTANCES:
